@@ -12,7 +12,7 @@ use std::sync::Mutex;
 const TOKENS: [&str; 12] = ["word", "\n", "*/", "/*", "//", "\"\"\"", "'''", "\\", "#", "`", "\"", "'"];
 const TOKEN_NAMES: [&str; 12] = ["word", "NL", "*/", "/*", "//", "\"\"\"", "'''", "backslash", "#", "backtick", "\"", "'"];
 const SYNTAXES: [&str; 3] = ["line", "block", "attr"];
-const POSITIONS: [&str; 6] = ["type", "field", "unit-variant", "variant", "variant-field", "alias"];
+const POSITIONS: [&str; 8] = ["type", "field", "unit-variant", "variant", "variant-field", "alias", "unit-enum-type", "algebraic-enum-type"];
 
 #[derive(Clone, Debug)]
 pub struct Case {
@@ -72,7 +72,7 @@ pub fn program_with(position: &str, all: Vec<Doc>) -> File {
         f
     }]);
     s.docs = docs("type");
-    let u = Item::enumm("Unit", vec![
+    let mut u = Item::enumm("Unit", vec![
         {
             let mut v = Variant::new("North", VKind::Unit);
             v.docs = docs("unit-variant");
@@ -80,7 +80,8 @@ pub fn program_with(position: &str, all: Vec<Doc>) -> File {
         },
         Variant::new("South", VKind::Unit),
     ]);
-    let e = Item::enumm("Alg", vec![
+    u.docs = docs("unit-enum-type");
+    let mut e = Item::enumm("Alg", vec![
         {
             let mut v = Variant::new("Num", VKind::Newtype(Ty::Prim("u32")));
             v.docs = docs("variant");
@@ -92,6 +93,7 @@ pub fn program_with(position: &str, all: Vec<Doc>) -> File {
             f
         }])),
     ]);
+    e.docs = docs("algebraic-enum-type");
     let mut a = Item::new("Name", IKind::Alias(Ty::Prim("String")));
     a.docs = docs("alias");
     File::single(vec![s, u, e, a])
